@@ -127,7 +127,7 @@ SEQ_RELEVANT = {
 }
 
 
-def engine_seq(pid, tier):
+def engine_seq(pid, tier, evidence=True):
     t0 = time.time()
     rng = random.Random(seed() * 7919 + 13)
     binary = build_harness()
@@ -211,6 +211,9 @@ def engine_seq(pid, tier):
     assumptions = ["payloads are compared as tokens (exact byte match against the upload table)",
                    "the clock is shifted in whole days by an LD_PRELOAD shim",
                    "TLC, the JVM and the harness (state projection through the public storage trait) are trusted"]
+    if not evidence:
+        shutil.rmtree(wd, ignore_errors=True)
+        return dict(found=found, notes=notes, coverage={k: coverage[k] for k in ("states", "transitions", "tours", "histories", "events_judged", "events_relevant_to_property")})
     rc = report(pid, tier, "model_checking", found, coverage, assumptions, t0, notes)
     shutil.rmtree(wd, ignore_errors=True)
     return rc
@@ -397,6 +400,433 @@ def engine_http(pid, tier):
     return rc
 
 
+# ---------------------------------------------------------------- C12: urgency grid + counter
+
+def urg_grid(rng, tier):
+    U32 = 2**32 - 1
+    I64 = 2**63 - 1
+    AGE_MAX = 90_000_000         # chrono's representable range is about +-9.5e7 days
+    tds = [0, 1, 2, 3, 7, 14, 15, 100, 2**31 - 1, 2**31, 2**32, 2**62, (2**63 + 2) // 3 - 1, (2**63 + 2) // 3, (2**63 + 2) // 3 + 1, I64]
+    tvs = [0, 1, 2, 3, 7, 100, 101, 2**31 - 1, 2**31, (2**32 + 2) // 3 - 1, (2**32 + 2) // 3, (2**32 + 2) // 3 + 1, 2863311531, U32]
+
+    def around(t, cap):
+        h = t + t // 2
+        c = {0, 1, t - 1, t, t + 1, h - 1, h, h + 1, 2 * t, 2 * t + 1}
+        return sorted(x for x in c if 0 <= x <= cap)
+
+    cases = []
+
+    def add(td, tv, age, since, has=True):
+        for backend in ("inmemory", "sqlite"):
+            cases.append(dict(td=str(td), tv=str(tv), age=str(age), since=str(since), has=has, backend=backend,
+                              driver="lib" if (len(cases) // 2) % 3 else "http"))
+    for td in tds:                                   # the age measure around each days-target
+        for age in around(td, AGE_MAX) + [-1, -3, AGE_MAX]:
+            add(td, 100, age, 0)
+    for tv in tvs:                                   # the counter measure around each versions-target
+        for since in around(tv, U32 - 1):
+            add(14, tv, 0, since)
+    for td in (2, 3, 14):                            # joint cases: max of the two urgencies
+        for tv in (2, 3, 4):
+            for age in around(td, AGE_MAX):
+                for since in around(tv, U32 - 1):
+                    add(td, tv, age, since)
+    for td in tds:                                   # extremes of both targets together, and no snapshot
+        for tv in tvs:
+            add(td, tv, 0, 0)
+            add(td, tv, 5, 5, has=False)
+    if tier == "thorough":
+        for _ in range(4000):
+            td = rng.choice(tds + [rng.randint(0, 200), rng.randint(0, I64)])
+            tv = rng.choice(tvs + [rng.randint(0, 200), rng.randint(0, U32)])
+            age = rng.choice(around(td, AGE_MAX) + [rng.randint(-5, 400)])
+            since = rng.choice(around(tv, U32 - 1) + [rng.randint(0, 400)])
+            add(td, tv, age, since, has=rng.random() < 0.93)
+    return cases
+
+
+def engine_urg(pid, tier):
+    """C12 = grid (this function) + counter/urgency on every SEQ run (engine_seq judged with the C12 predicates)."""
+    t0 = time.time()
+    rng = random.Random(seed() * 31 + 5)
+    binary = build_harness()
+    wd = workdir("urg")
+    # design level: MC_Urgency
+    cfg = write_cfg(f"urg_{os.getpid()}.cfg", """SPECIFICATION Spec
+CONSTANTS
+  MaxT = %d
+  MaxM = %d
+  TB = 4
+INVARIANTS ImplAgrees Thresholds Monotone BigAgrees
+CHECK_DEADLOCK FALSE
+""" % ((5, 9) if tier == "quick" else (8, 14)))
+    out = tlc("MC_Urgency.tla", cfg, workers=4, timeout=900)
+    if not tlc_ok(out):
+        raise ToolError("TLC reports an error on MC_Urgency:\n" + ("\n".join(tlc_error_summary(out)) or out[-2000:]))
+    ust = tlc_stats(out)
+    cases = urg_grid(rng, tier)
+    nproc = NCPU
+    shards = [cases[i::nproc] for i in range(nproc)]
+    from concurrent.futures import ThreadPoolExecutor
+    files = []
+
+    def one(k):
+        pf = os.path.join(wd, f"plan{k}.json")
+        of = os.path.join(wd, f"urg{k}.ndjson")
+        json.dump({"cases": shards[k]}, open(pf, "w"))
+        r = run_harness(binary, ["urg", pf, of], timeout=1800)
+        return of, r
+    ncase = nskip = 0
+    with ThreadPoolExecutor(max_workers=nproc) as ex:
+        for of, r in ex.map(one, range(nproc)):
+            files.append(of)
+            ncase += r["cases"]
+            nskip += r["skipped_unrepresentable"]
+    # renumber runs globally so that replay files name the case
+    allf = os.path.join(wd, "all.ndjson")
+    evs = []
+    with open(allf, "w") as w:
+        for f in files:
+            for line in open(f):
+                e = json.loads(line)
+                e["run"] = len(evs)
+                evs.append(e)
+                w.write(json.dumps(e) + "\n")
+    viols, total = judge([allf], spec="TraceUrg.tla")
+    found = []
+    for v in viols:
+        e = evs[v["run"]]
+        ovf_v = int(e["dec"]["tv"]) * 3 > 2**32 - 1
+        ovf_d = int(e["dec"]["td"]) * 3 > 2**63 - 1
+        sig = dict(engine="urg", kind=e["kind"], overflow_versions=ovf_v, overflow_days=ovf_d)
+        what = (f"C12 grid: targets days={e['dec']['td']} versions={e['dec']['tv']}, snapshot age={e['dec']['age']} d, versions since={e['dec']['since']}, "
+                f"has_snapshot={e['has']} on {e['backend']}/{e['driver']}: add_version -> {e['kind']} urgency={e['urg']!r} committed={e['committed']} {e.get('msg','')[:120]}")
+        found.append(dict(sig=sig, what=what, replay=dict(engine="urg", case=dict(e["dec"], has=e["has"], backend=e["backend"], driver=e["driver"]))))
+    kinds = collections.Counter((e["kind"], e["urg"]) for e in evs)
+    distinct = len({(e["dec"]["td"], e["dec"]["tv"], e["dec"]["age"], e["dec"]["since"], e["has"]) for e in evs})
+    # the counter / urgency facet on real histories: SEQ runs judged with the C12 predicates
+    rc_seq = engine_seq("C12", tier, evidence=False)
+    coverage = dict(states=ust["distinct"], transitions=ust["generated"], traces_validated_against_impl=ncase,
+                    samples=[evs[i]["dec"] | {"urg": evs[i]["urg"], "kind": evs[i]["kind"]} for i in (0, len(evs) // 2, len(evs) - 1)],
+                    grid_cases=ncase, grid_distinct=distinct, skipped_unrepresentable_age=nskip,
+                    outcomes={f"{k[0]}/{k[1]}": n for k, n in kinds.items()},
+                    seq_part=rc_seq["coverage"],
+                    rule="MC_Urgency: every (targets, age, since, has) combination is an initial state (thresholds, monotonicity, BigNat vs native). "
+                         "Grid: targets incl. 0, 1, odd, u32/i64 extremes x measures around each threshold; one real add_version each, "
+                         "expected urgency computed by TLC with BigNat. Counter: C12_Counter/C12_Step on every step of the SEQ runs.")
+    assumptions = ["snapshot age is set through the stored timestamp (public storage API), ages beyond chrono's range (~9.5e7 days) are skipped",
+                   "dev profile (overflow checks on), as in the repository's test runs"]
+    rc = report(pid, tier, "model_checking", found + rc_seq["found"], coverage, assumptions, t0, rc_seq["notes"])
+    shutil.rmtree(wd, ignore_errors=True)
+    return rc
+
+
+# ---------------------------------------------------------------- lock-step engines (C09 two-run, C13 variants)
+
+def engine_lock(pid, tier):
+    t0 = time.time()
+    rng = random.Random(seed() * 65537 + 3)
+    binary = build_harness()
+    wd = workdir("lock-" + pid)
+    jobs, run0 = [], 1
+    model_stats = None
+    if pid == "C13":
+        variants = [{"backend": "inmemory", "reopen": False}, {"backend": "sqlite", "reopen": False}, {"backend": "sqlite", "reopen": True}]
+        mname = "tiny" if tier == "quick" else "small"
+        edges, st, cfg = seqplan.model_edges(mname, workers=8)
+        model_stats = dict(name=mname, states=st["distinct"], transitions=st["generated"])
+        for driver in ("lib", "http"):
+            g = seqplan.Graph(edges, driver)
+            tours = seqplan.plan_tours(g, 2, rng=random.Random(rng.random()))
+            js = seqplan.tours_to_jobs(tours, g, 2, cfg, "inmemory", driver, run0, f"{mname}-{driver}-var-")
+            for j in js:
+                j["engine"] = "variants"
+                j["variants"] = variants
+            run0 += len(js)
+            jobs += js
+        nh, ln = (40, 120) if tier == "quick" else (300, 200)
+        hj = seqplan.history_jobs(rng, nh, ln, run0, backends=("inmemory",))
+        for j in hj:
+            j["engine"] = "variants"
+            j["variants"] = variants
+    else:
+        nh, ln = (60, 90) if tier == "quick" else (400, 160)
+        hj = seqplan.history_jobs(rng, nh, ln, run0)
+        for j in hj:
+            j["engine"] = "ni"
+            if j["nclients"] < 3:
+                j["nclients"] = 3
+    run0 += len(hj)
+    jobs += hj
+    plan = {"threads": 1, "needs_clock": True, "jobs": jobs}
+    t1 = time.time()
+    summ, files = run_harness_sharded(binary, "seq", plan, wd)
+    t2 = time.time()
+    viols, total = judge(files, spec="TraceLockstep.tla")
+    t3 = time.time()
+    log(f"[lock] plan {t1-t0:.1f}s harness {t2-t1:.1f}s judge {t3-t2:.1f}s pairs {total}")
+    jobs_by_run = {j["run"]: j for j in jobs}
+    found = []
+    for v in viols:
+        if pid not in v["names"]:
+            continue
+        e = load_event(v["file"], v["line"])
+        job = jobs_by_run.get(v["run"], {})
+        diff = {k: (e["a"].get(k), e["b"].get(k)) for k in set(e["a"]) | set(e["b"]) if e["a"].get(k) != e["b"].get(k)} if isinstance(e["a"], dict) else {}
+        sig = dict(engine="lock", prop=pid, op=e.get("op") or (e["a"].get("req", {}) or {}).get("op"), backend=job.get("backend"), driver=job.get("driver"),
+                   fields=sorted(diff.keys()))
+        what = (f"{pid} lock-step pair differs at run {v['run']} step {v['i']} ({job.get('backend')}/{job.get('driver')}, "
+                f"{'variants ' + json.dumps([e.get('va'), e.get('vb')]) if pid == 'C13' else 'client ' + str(e.get('client')) + ' alone vs with others'}): "
+                + json.dumps(diff)[:900])
+        steps = job.get("steps", [])[: max(0, v["i"]) + 1]
+        found.append(dict(sig=sig, what=what, replay=dict(engine="seq", predicate=pid, job=dict(job, steps=steps))))
+    samples = []
+    for f in files[:1]:
+        with open(f) as fh:
+            for k, line in enumerate(fh):
+                if k in (3, 40):
+                    e = json.loads(line)
+                    samples.append({"pair": {"a": e["a"], "b": e["b"]}, "step": e["i"]})
+    if hj:
+        samples.append({"history_prefix": hj[0]["steps"][:6]})
+    seq_part = None
+    notes = []
+    if pid == "C09":
+        r = engine_seq("C09", tier, evidence=False)      # the step facet: other clients' state untouched, nothing foreign revealed
+        found += r["found"]
+        notes = r["notes"]
+        seq_part = r["coverage"]
+        st = dict(distinct=seq_part["states"], generated=seq_part["transitions"])
+    else:
+        st = dict(distinct=model_stats["states"], generated=model_stats["transitions"])
+    coverage = dict(states=st["distinct"], transitions=st["generated"], traces_validated_against_impl=len(summ["summaries"]),
+                    samples=samples, pairs_judged=total, jobs=len(jobs), histories=len(hj), model=model_stats, seq_part=seq_part,
+                    rule=("C13: every tour of the bounded model and seeded histories run on in-memory, SQLite and SQLite-with-reopen; canonical events "
+                          "paired and compared by TLC. C09: each multi-client history is projected onto each client and re-run alone; the client's "
+                          "responses and own state are paired and compared by TLC; plus the C09 step predicate on all SEQ runs."))
+    assumptions = ["version ids are compared after canonical renaming (first appearance / acceptance index), snapshot times at day granularity",
+                   "payload equality through exact byte match (tokens / FNV-64 of the returned bytes)"]
+    rc = report(pid, tier, "model_checking", found, coverage, assumptions, t0, notes)
+    shutil.rmtree(wd, ignore_errors=True)
+    return rc
+
+
+# ---------------------------------------------------------------- CONC engine (C03; schedule facets of C11, C01, C02, C07)
+
+CONC_SHAPES_HTTP = [("AddVersion", "latest"), ("AddVersion", "nil"), ("AddVersion", "old"), ("GetChildVersion", "latest"),
+                    ("GetChildVersion", "nil"), ("GetChildVersion", "mid"), ("AddSnapshot", "latest"), ("AddSnapshot", "mid"),
+                    ("GetSnapshot", "nil")]
+CONC_SEEDS = {
+    "Seed0": [],
+    "Seed1": [{"op": "NewClient", "c": 1}],
+    "Seed2": [{"op": "AddVersion", "arg": {"sym": "nil"}}],
+    "Seed3": [{"op": "AddVersion", "arg": {"sym": "nil"}}, {"op": "AddVersion", "arg": {"sym": "latest"}}, {"op": "AddSnapshot", "arg": {"sym": "first"}}],
+    "Seed4": [{"op": "AddVersion", "arg": {"abs": 90}}, {"op": "AddVersion", "arg": {"sym": "latest"}}, {"op": "AddVersion", "arg": {"sym": "latest"}},
+              {"op": "AddSnapshot", "arg": {"sym": "anc", "k": 1}}, {"op": "AddVersion", "arg": {"sym": "latest"}}],
+    "Seed6": [{"op": "AddVersion", "arg": {"sym": "nil"}}] + [{"op": "AddVersion", "arg": {"sym": "latest"}}] * 5,
+}
+# the same scripts as TLA+ sequences (MC_Conc.tla) are identified by their length and first parent
+def seed_name_of(tla_seed):
+    n = len(tla_seed)
+    if n == 0:
+        return "Seed0"
+    if n == 1:
+        return "Seed1" if tla_seed[0]["op"] == "NewClient" else "Seed2"
+    return {3: "Seed3", 5: "Seed4", 6: "Seed6"}[n]
+
+
+def conc_cfg_text(backend, checks, nreq, shapes, seeds, faults=0, crash=False, invariants="MutualExclusion Inv_C03", emit=True):
+    return f"""SPECIFICATION Spec
+CONSTANTS
+  Backend = "{backend}"
+  CreateChecks = {"TRUE" if checks else "FALSE"}
+  NReq = {nreq}
+  ReqChoices <- {shapes}
+  Seeds <- {seeds}
+  FaultBudget = {faults}
+  CrashOn = {"TRUE" if crash else "FALSE"}
+  SnapDays = 14
+  SnapVersions = 100
+INVARIANTS {invariants} {"EmitDone" if emit else ""}
+CHECK_DEADLOCK FALSE
+"""
+
+
+def conc_model(backend, checks, nreq, shapes, seeds, faults=0, crash=False, invariants="MutualExclusion Inv_C03", timeout=900, workers=8):
+    cfg = write_cfg(f"conc_{os.getpid()}_{backend}_{shapes}_{seeds}_{nreq}_{faults}_{int(crash)}.cfg",
+                    conc_cfg_text(backend, checks, nreq, shapes, seeds, faults, crash, invariants))
+    out = tlc("MC_Conc.tla", cfg, workers=workers, timeout=timeout)
+    scheds = [parse_tla_string_tuple(l, "SCHED") for l in out.splitlines() if l.startswith('<<"SCHED"')]
+    return out, scheds, tlc_stats(out)
+
+
+def normalize_sched(sched, backend):
+    """The model lets a thread sit between calling txn() and getting the lock while the lock is free (a
+    preemption the gates cannot force): a "txn" entry is kept only where another request holds the lock
+    (the thread really blocks); otherwise it is issued together with the request's "acquired"."""
+    out, holder, pending = [], None, set()
+    for r, call in sched:
+        if call == "txn":
+            if holder is not None and holder != r:
+                out.append([r, "txn"])
+            else:
+                pending.add(r)
+        elif call == "acquired":
+            if r in pending:
+                pending.discard(r)
+                out.append([r, "txn"])
+            out.append([r, "acquired"])
+            holder = r
+        else:
+            out.append([r, call])
+            if holder == r and (call == "release" or (call == "commit" and backend == "sqlite")):
+                holder = None
+    return out
+
+
+def sched_to_job(s, backend, instances, jid):
+    reqs = [{"op": q["op"], "argk": sh["argk"], "lvl": q["lvl"]} for q, sh in zip(s["reqs"], s["shapes"])]
+    return {"id": jid, "mode": "model", "backend": backend, "instances": instances, "cfg": {"days": 14, "versions": 100},
+            "seed": CONC_SEEDS[seed_name_of(s["seed"])], "reqs": reqs, "sched": normalize_sched([[e[0], e[1]] for e in s["sched"]], backend),
+            "model_resps": [r["kind"] for r in s["resps"]]}
+
+
+def run_conc_jobs(binary, jobs, wd, nproc=None):
+    from concurrent.futures import ThreadPoolExecutor
+    nproc = nproc or NCPU
+    shards = [[] for _ in range(nproc)]
+    load = [0] * nproc
+    for j in sorted(jobs, key=lambda j: -j.get("max_rounds", j.get("rounds", 1))):
+        k = load.index(min(load))
+        shards[k].append(j)
+        load[k] += j.get("max_rounds", j.get("rounds", 1)) * (2 if j["backend"] == "sqlite" else 1)
+    run0 = 1
+    todo = []
+    for k, sj in enumerate(shards):
+        if not sj:
+            continue
+        pf = os.path.join(wd, f"cplan{k}.json")
+        json.dump({"run0": run0, "jobs": sj}, open(pf, "w"))
+        todo.append((pf, os.path.join(wd, f"rounds{k}.ndjson")))
+        run0 += sum(j.get("max_rounds", j.get("rounds", 1)) for j in sj) + 10
+    tot = 0
+    perjob = []
+    with ThreadPoolExecutor(max_workers=nproc) as ex:
+        for r in ex.map(lambda a: run_harness(binary, ["conc", a[0], a[1]], timeout=3000), todo):
+            tot += r["rounds"]
+            perjob += r["jobs"]
+    return [t[1] for t in todo], tot, perjob
+
+
+def conc_collect(pid, viols, extra_sig=None):
+    found = []
+    for v in viols:
+        if pid not in v["names"]:
+            continue
+        e = load_event(v["file"], v["line"])
+        ops = sorted(q["op"] for q in e["reqs"])
+        sig = dict(engine="conc", ops=ops, lvls=sorted(set(q["lvl"] for q in e["reqs"])), seed_client_exists=e["seed"]["e"],
+                   backend=e["backend"], resp_kinds=sorted(r["kind"] for r in e["resps"]))
+        what = (f"{pid} false on a recorded round ({e['backend']}/{e['instances']}, mode {e['mode']}): requests "
+                f"{[(q['op'], q['arg'], q['lvl']) for q in e['reqs']]} on seed latest={e['seed']['l']} exists={e['seed']['e']} -> responses "
+                f"{[(r['kind'], r['vid'], r.get('msg', '')[:60]) for r in e['resps']]}; final latest={e['final']['l']} versions={[(x['vid'], x['parent']) for x in e['final']['v']]}; "
+                f"schedule {e['info']}")
+        found.append(dict(sig=sig, what=what[:1800], replay=dict(engine="conc", predicate=pid, round=e)))
+    return found
+
+
+def engine_conc(pid, tier, evidence=True, only_av=False):
+    t0 = time.time()
+    rng = random.Random(seed() * 2654435761 % (2**31) + 11)
+    binary = build_harness()
+    wd = workdir("conc-" + pid)
+    # ---- (1) the design: TLC on SyncStorage (CreateChecks = TRUE: the create transaction re-reads the client)
+    model_runs = []
+    scheds_all = []
+    states = transitions = 0
+    mconfigs = [("sqlite", 2, "ShapesNew", "SeedsNew"), ("inmemory", 2, "ShapesAV", "SeedsSmall")] if tier == "quick" else \
+               [("sqlite", 2, "ShapesNew", "SeedsNew"), ("inmemory", 2, "ShapesNew", "SeedsNew"), ("sqlite", 2, "ShapesHttp", "SeedsAll"),
+                ("inmemory", 2, "ShapesHttp", "SeedsAll"), ("sqlite", 2, "ShapesLib", "SeedsSmall"), ("sqlite", 3, "ShapesAV", "SeedsSmall")]
+    if only_av:
+        mconfigs = mconfigs[:1]
+    for backend, nreq, shapes, seeds in mconfigs:
+        out, scheds, st = conc_model(backend, True, nreq, shapes, seeds)
+        if not tlc_ok(out):
+            raise ToolError(f"TLC reports an error on the concurrency model ({backend},{shapes},{seeds}):\n" + ("\n".join(tlc_error_summary(out)) or out[-3000:]))
+        model_runs.append(dict(backend=backend, nreq=nreq, shapes=shapes, seeds=seeds, states=st["distinct"], transitions=st["generated"], schedules=len(scheds)))
+        states += st["distinct"]
+        transitions += st["generated"]
+        k = (150 if tier == "quick" else 1500) if not only_av else 40
+        for s in rng.sample(scheds, min(k, len(scheds))):
+            scheds_all.append((backend, s))
+    jobs = []
+    for i, (backend, s) in enumerate(scheds_all):
+        inst = "multi" if (backend == "sqlite" and i % 2) else "shared"
+        jobs.append(sched_to_job(s, backend, inst, f"m{i}"))
+    # ---- (2) bounded-exhaustive exploration at gate granularity, not derived from the model
+    shapes = CONC_SHAPES_HTTP
+    pairs = [(a, b) for i, a in enumerate(shapes) for b in shapes[i:]]
+    if only_av:
+        pairs = [(a, b) for a, b in pairs if a[0] == "AddVersion" and b[0] == "AddVersion"]
+    seeds = ["Seed0", "Seed2", "Seed3"] if tier == "quick" else ["Seed0", "Seed1", "Seed2", "Seed3", "Seed4", "Seed6"]
+    targets = [("inmemory", "shared"), ("sqlite", "shared"), ("sqlite", "multi")]
+    maxr = 60 if tier == "quick" else 400
+    k = 0
+    for a, b in pairs:
+        for sd in seeds:
+            for backend, inst in targets:
+                if tier == "quick" and not only_av and (k % 3) != (hash((a, b, sd)) % 3) and not (a[0] == "AddVersion" and b[0] == "AddVersion"):
+                    k += 1
+                    continue            # quick: each (pair, seed) on one of the three storage configurations; AddVersion pairs on all
+                k += 1
+                lvl = "lib" if (k % 5 == 0 and sd != "Seed0") else "http"
+                jobs.append({"id": f"d{k}", "mode": "dfs", "backend": backend, "instances": inst, "cfg": {"days": 14, "versions": 100},
+                             "seed": CONC_SEEDS[sd], "reqs": [{"op": a[0], "argk": a[1], "lvl": lvl}, {"op": b[0], "argk": b[1], "lvl": lvl}],
+                             "max_rounds": maxr if not (a[0] == b[0] == "AddVersion" and sd == "Seed0") else max(maxr, 250)})
+    # ---- (3) seeded random schedules for triples
+    ntr = 0 if only_av else (40 if tier == "quick" else 400)
+    for i in range(ntr):
+        tr = [rng.choice(shapes) for _ in range(3)]
+        backend, inst = rng.choice(targets)
+        jobs.append({"id": f"r{i}", "mode": "random", "backend": backend, "instances": inst, "cfg": {"days": 14, "versions": 100},
+                     "seed": CONC_SEEDS[rng.choice(seeds)], "reqs": [{"op": o, "argk": a, "lvl": "http"} for o, a in tr],
+                     "rounds": 6, "rseed": rng.randint(1, 2**31)})
+    t1 = time.time()
+    files, nrounds, perjob = run_conc_jobs(binary, jobs, wd)
+    t2 = time.time()
+    viols, total = judge(files, spec="TraceConc.tla")
+    t3 = time.time()
+    log(f"[conc] tlc {t1-t0:.1f}s harness {t2-t1:.1f}s judge {t3-t2:.1f}s rounds {total}")
+    found = conc_collect(pid, viols)
+    if not evidence:
+        shutil.rmtree(wd, ignore_errors=True)
+        return dict(found=found, rounds=total, model_runs=model_runs)
+    samples = []
+    for f in files[:2]:
+        with open(f) as fh:
+            for kk, line in enumerate(fh):
+                if kk == 2:
+                    e = json.loads(line)
+                    samples.append({"round": {"reqs": e["reqs"], "resps": [r["kind"] for r in e["resps"]], "log": e["log"][:14], "mode": e["mode"]}})
+    if scheds_all:
+        samples.append({"model_schedule": scheds_all[0][1]["sched"][:16], "model_resps": [r["kind"] for r in scheds_all[0][1]["resps"]]})
+    incomplete = [j["id"] for j in perjob if j.get("complete") is False]
+    per_name = collections.Counter(n for v in viols for n in v["names"])
+    coverage = dict(states=states, transitions=transitions, traces_validated_against_impl=total, samples=samples,
+                    model_runs=model_runs, dfs_jobs=sum(1 for j in jobs if j["mode"] == "dfs"), model_schedule_rounds=len(scheds_all),
+                    random_jobs=ntr, dfs_jobs_hitting_round_cap=len(incomplete), predicate_failures_all_properties=dict(per_name),
+                    rule="TLC explores every interleaving of 2-3 request programs at storage-call granularity (SyncStorage, both backend semantics) and "
+                         "checks linearizability; a sample of its terminal schedules, a bounded-exhaustive gate-level exploration of all request pairs "
+                         "and seeded random triples are executed on the real code under the controlled scheduler; TLC judges each recorded round "
+                         "(mutual exclusion in the call log, no server error, linearizable, chain intact)")
+    assumptions = ["requests run on one OS thread each inside one process; two SqliteStorage objects on one directory stand for several server instances",
+                   "a request blocked in txn() is recognised by a grace period (8/25 ms); timing never decides a verdict",
+                   "an HTTP AddVersion for an unknown client may linearize as two units (create the empty client, then add)"]
+    rc = report(pid, tier, "model_checking", found, coverage, assumptions, t0)
+    shutil.rmtree(wd, ignore_errors=True)
+    return rc
+
+
 # ---------------------------------------------------------------- dispatch
 
 ENGINES = {}
@@ -404,6 +834,10 @@ for _p in SEQ_PROPS:
     ENGINES[_p] = engine_seq
 for _p in ("C14", "C15", "C16", "C20"):
     ENGINES[_p] = engine_http
+ENGINES["C12"] = engine_urg
+ENGINES["C03"] = engine_conc
+ENGINES["C09"] = engine_lock
+ENGINES["C13"] = engine_lock
 
 
 def cmd_setup():
